@@ -39,6 +39,9 @@ def trace_targets(level):
     mgr = L.adb_device._AdbIOManager
     store = L.hidden_helpers._AdbPacketStore
     t = {mgr.read.__code__, mgr.send.__code__, _orig_put.__code__, store.get.__code__, store.find.__code__, store.clear.__code__, store.find_allow_zeros.__code__}
+    if level == "fs":
+        d = L.adb_device.AdbDevice
+        return {d._filesync_send.__code__, d._filesync_flush.__code__, d._push.__code__, d._pull.__code__, d._filesync_read_buffered.__code__, d._filesync_read.__code__}
     if level == "open":
         t = {L.adb_device.AdbDevice._open.__code__}
     elif level == "all":
